@@ -196,6 +196,7 @@ func vxNewClient(nc net.Conn, msize uint32, dotu bool, ntags int) *Clnt {
 		tagpool: NewPool(0, uint32(ntags)),
 		reqout:  make(chan *Req),
 		done:    make(chan bool),
+		closed:  make(chan bool),
 		reqchan: make(chan *Req, 16),
 		tchan:   make(chan *Fcall, 16),
 	}
